@@ -275,7 +275,14 @@ Fixpoint read_from (fuel:nat) (c:wcfg) (chunks:list bytes) (s:wst) : option werr
           let n := N.min room (blen ch) in
           let s := s <| cur := Some (m <| m_buf := m_buf m ++ takeN n ch |>) |> in
           let rem := dropN n ch in
-          read_from f c (match rem with [] => rest | _ => rem :: rest end) s
+          (* one chunk = what one Read of the source returns (at most [room] bytes of it at a
+             time); the source reports io.EOF together with its last chunk (which may be empty:
+             a source that reports EOF separately), and then the loop ends at once *)
+          match rem, rest with
+          | [], [] => (None, s)
+          | [], _ => read_from f c rest s
+          | _, _ => read_from f c (rem :: rest) s
+          end
         end
     end
   end.
